@@ -124,11 +124,14 @@ class FilesystemLoader(Loader):
         debug("FilesystemLoader find starting at {!r}".format(self.start))
         spec = None
         module = "{}.py".format(name)
-        paths = self.start.split(os.sep)
+        # NOTE: walk the absolute, normalized form of the start point, so the
+        # directories actually enclosing it get examined (incl. for relative
+        # starts or ones containing '..'), up to & including the root.
+        paths = os.path.abspath(self.start).split(os.sep)
         try:
             # walk the path upwards to check for dynamic import
-            for x in reversed(range(len(paths) + 1)):
-                path = os.sep.join(paths[0:x])
+            for x in reversed(range(1, len(paths) + 1)):
+                path = os.sep.join(paths[0:x]) or os.sep
                 if module in os.listdir(path):
                     spec = spec_from_file_location(
                         name, os.path.join(path, module)
@@ -148,7 +151,7 @@ class FilesystemLoader(Loader):
                 debug("Found module: {!r}".format(spec))
                 return spec
         except (FileNotFoundError, ModuleNotFoundError):
-            msg = "ImportError loading {!r}, raising CollectionNotFound"
-            debug(msg.format(name))
-            raise CollectionNotFound(name=name, start=self.start)
-        return None
+            pass
+        msg = "ImportError loading {!r}, raising CollectionNotFound"
+        debug(msg.format(name))
+        raise CollectionNotFound(name=name, start=self.start)
